@@ -21,7 +21,7 @@ BUDGET = {"quick": 150, "thorough": 900}
 RULE = ("Sessions of 5-40 operations by 1-3 clients over a pool of 5 names, unique script bodies, quotas small enough that "
         "QUOTA/*, NONEXISTENT, ACTIVE and ALREADYEXISTS refusals occur, reply encodings (quoted/literal), listing order, "
         "recv segmentation and forced NO drawn; one operation in twelve loses its connection (reply lost, cut at a drawn byte or "
-        "never sent; connection closed, reset or silent) and the same object reconnects; with several clients one may be told BYE and is retired; every session ends "
+        "never sent; connection closed, reset or silent) and the same object reconnects; reconnects that must fail (a mechanism the server does not announce, STARTTLS the server does not offer, a LOGIN exchange the server ends with NO right after the user name) after which the object must refuse script commands and nothing stray may reach the server; with several clients one may be told BYE and is retired; every session ends "
         "with a fresh Client object that must connect and list correctly. Every result is compared with the server's state "
         "at that moment. Non-trivial: the session contained at least one refusal or one literal-encoded value. Distinct = "
         "(number of clients, sorted set of (operation, outcome class) pairs seen).")
@@ -156,6 +156,14 @@ def run(ch, config, res):
                         # ... or asking for STARTTLS, which this server does not offer: connect stops before AUTHENTICATE
                         o = world.call(client, "connect", "user", "password", starttls=True)
                         how = "starttls=True) although the server does not offer STARTTLS"
+                    elif sasl[0] == "LOGIN" and wl.flag("bad_by_early_no", 1, 2):
+                        # ... or the server ends the LOGIN exchange with NO right after the user name (unknown account): whatever
+                        # the client had planned to send next must not reach the server as a stray line
+                        srv.login_early_reject = True
+                        o = world.call(client, "connect", "user", "password")
+                        srv.login_early_reject = False
+                        how = ") returned True although the server refused the LOGIN exchange after the user name"
+                        res.count("login_early_no")
                     else:
                         other = "LOGIN" if sasl[0] != "LOGIN" else "PLAIN"
                         o = world.call(client, "connect", "user", "password", authmech=other)
